@@ -169,7 +169,8 @@ structure Case17 where
   rows : List Seq
 
 def decCase (args : List String) : Option Case17 :=
-  match args with
+  -- an optional tenth field `reuse` (one model object for the three calls) does not change what is expected
+  match args.take 9 with
   | [model, mf, gamma, alpha, rg, weights, rp, cp, rows] => do
     let idx ← model.toNat?
     let alpha ← DistOps.decRatio alpha
